@@ -109,7 +109,8 @@ def run(W, chk):
     for (e, g, sm, strict, pos) in cp:
         lhs, rhs = opmap(g), opmap(sm)
         t = lhs.get(T, frozenset())
-        ok = {"sub:r", "mul"} <= t and "sub:l" not in t and T not in rhs and "info.funds[*].amount" in lhs and "Store(POOLS).assets[*].amount" in rhs and strict
+        ok = {"sub:r", "mul"} <= t and "sub:l" not in t and T not in rhs and "info.funds[*].amount" in lhs and "Store(POOLS).assets[*].amount" in rhs and strict \
+            and "info.funds[*].amount" not in rhs      # measured against the pool before the deposit, not after it
         chk.expect(ok, "POLAR-deposit-tolerance", "cp.bb%d" % e.bb, "reject iff deposit_ratio * (1 - tolerance) > pool_ratio (larger tolerance never rejects more)",
                    "constant-product deposit check is %s > %s" % ({k: sorted(v) for k, v in lhs.items()}, {k: sorted(v) for k, v in rhs.items()}), where(e))
     # both orientations of the price are checked, and for the same orientation on both sides: when the ratios are built from
@@ -124,7 +125,7 @@ def run(W, chk):
         oa, ob = exact_origins(a), exact_origins(b)
         if oa == ob == {"info.funds[*].amount"}:
             dep_r.add((min(pa_), min(pb_)))
-        elif oa == ob == {"Store(POOLS).assets[*].amount"}:
+        elif oa == ob == {"Store(POOLS).assets[*].amount"} and all_origins(a) | all_origins(b) == {"Store(POOLS).assets[*].amount"}:
             pool_r.add((min(pa_), min(pb_)))
     if dep_r or pool_r:
         chk.expect(dep_r == pool_r and all(a != b for (a, b) in dep_r), "AGREE-deposit-ratio-orientation", "constant product",
